@@ -619,8 +619,39 @@ func c04GenCells(rng *Rng, effRow int, rowHasR bool, mode int, wf bool) []c04Cel
 		}
 		cells = append(cells, c)
 	}
+	// rows with unreferenced cells: an empty <c/> between valued ones (the streaming reader's
+	// running column advances over it although nothing is appended; checkRow numbers it too)
+	if mode != 0 && len(cells) >= 3 && rng.Chance(35) {
+		k := 1 + rng.Intn(len(cells)-2)
+		cells[k].Val, cells[k].F = "", false
+		if cells[0].Val == "" {
+			cells[0].Val = rng.Pick(c04Vals)
+		}
+		if last := len(cells) - 1; cells[last].Val == "" {
+			cells[last].Val = rng.Pick(c04Vals)
+		}
+	}
 	_ = rowHasR
 	return cells
+}
+
+// rlessEmptyBetween: some row has a kept cell without r after an element the streaming reader
+// does not append (no value, no formula) — its place depends on the running column having
+// advanced over the empty element (Lean: streaming_placement_eq_cached)
+func (d c04Desc) rlessEmptyBetween() bool {
+	for _, r := range d {
+		empty := false
+		for _, c := range r.Cells {
+			live := c.Val != "" || c.F
+			if live && c.Col == 0 && empty {
+				return true
+			}
+			if !live {
+				empty = true
+			}
+		}
+	}
+	return false
 }
 
 // mode: 0 every reference present, 1 none, 2 mixed
@@ -693,6 +724,9 @@ func c04XMLCase(r *Run, rng *Rng, d c04Desc, tag string) {
 		class = "wf-missing-r"
 	}
 	r.Stat("xml:class=" + class)
+	if d.rlessEmptyBetween() {
+		r.Stat("xml:rless-after-empty:" + class)
+	}
 	s.op(d.line())
 	mc, mr := d.box()
 	needles := []string{"needle", "a", "", "1", "("}
@@ -1982,6 +2016,13 @@ var c04Boundary = []string{
 	"sheet ROW 0 0 C 0 0 0 61 C 0 0 0 62 ROW 0 0 ROW 0 0 C 0 0 0 63",
 	"sheet ROW 2 0 C 0 0 0 61 C 4 2 0 62 C 0 0 0 63",
 	"sheet ROW 0 0 C 2 1 0 61 ROW 4 1 C 0 0 0 62",
+	"sheet ROW 0 0 C 0 0 0 61 C 0 0 0 - C 0 0 0 62",
+	"sheet ROW 1 0 C 0 0 0 61 C 0 0 0 - C 0 0 0 - C 0 0 0 62",
+	"sheet ROW 0 0 C 0 0 0 - C 0 0 0 - C 0 0 0 61 ROW 0 0 C 0 0 2 - C 0 0 0 62",
+	"sheet ROW 2 0 C 2 2 0 61 C 0 0 0 - C 0 0 0 62 C 7 2 0 - C 0 0 0 63",
+	"sheet ROW 0 0 C 0 0 0 61 C 0 0 0 - C 4 1 0 62 C 0 0 0 - C 0 0 0 63 ROW 0 0 C 0 0 0 - C 0 0 1 - C 0 0 0 64",
+	"sheet ROW 4 0 C 2 4 0 61 C 0 0 0 - C 5 4 0 - C 0 0 0 62",
+	"sheet ROW 1 0 C 3 1 0 78 C 1 1 0 79 C 0 0 0 7a",
 	"sheet ROW 1 0 C 2 1 0 61 C 2 1 0 62",
 	"sheet ROW 1 0 C 3 1 0 61 C 1 1 0 62",
 	"sheet ROW 1 0 C 9 1 0 61 C 3 1 0 62",
